@@ -32,7 +32,7 @@ LEVEL_NOTE = ("Trusted: Lean kernel + standard axioms; the translation of API st
               "that serif's operations allocate fresh objects where the model says so is established only on the executed histories "
               "(counts in the evidence).")
 
-DERIVE = {"newvec", "newtab", "tabfrom", "copy", "slice", "mask", "select", "stack", "stackdict", "stackdictv", "append", "appendt", "T",
+DERIVE = {"newvec", "newtab", "tabfrom", "copy", "slice", "mask", "select", "stack", "stackvt", "stackdict", "stackdictv", "append", "appendt", "T",
           "sort", "sortv", "aggregate", "window", "join", "arith", "tarith", "compare", "unary", "fillna", "sharevec"}
 
 
